@@ -50,6 +50,16 @@ CLAIMED["C13"] = dict(
         "known_findings.json. " + TRUST,
    design="DESIGN.md §4 C13")
 
+CLAIMED["C32"] = dict(
+   text="Proof-level kernel: parseRange is verified for every header string with an inductive loop invariant - every range it returns starts inside "
+        "the content, is non-empty and ends inside the content (pieces of the header are arbitrary strings, strconv.ParseInt is modelled exactly); "
+        "processRangeRequest is executed with the HTTP library abstracted and proved to produce an answer on every path (writer callback, error "
+        "status or multipart stream); the writer callback of writeResponseContent seeks to exactly the requested offset and copies exactly the "
+        "requested length on every invocation.",
+   note="Effect obligations (which calls are made with which arguments), not byte contents: multipart framing, gzip negotiation and the HTTP "
+        "library are opaque. " + TRUST,
+   design="DESIGN.md §4 C32")
+
 NA = {
  "C03":"crash-point property over byte-level truncation of two persistent files; no per-function contract within reach decides it (DESIGN §4 C03)",
  "C10":"needs inductive tree predicates and cardinality reasoning over interface-typed nodes in pointer maps with randomised picking (DESIGN §4 C10)",
